@@ -313,6 +313,9 @@ fn editor_alphabet() -> Vec<K> {
 /// Editor BFS by replay: returns (states, transitions, distinct render digests).
 fn editor_bfs(depth: usize, bad: &mut Bad) -> (u64, u64, u64, Vec<Vec<K>>) {
     let alpha = editor_alphabet();
+    // No deduplication: the session has state that is not observable through the accessors (and a
+    // change could add more), so two key sequences that reach the same visible editor state are both
+    // followed. `seen` only counts distinct visible states for the statistics.
     let mut seen: HashSet<u64> = HashSet::new();
     let mut frontier: Vec<Vec<K>> = vec![vec![]];
     let mut states = 1u64;
@@ -348,16 +351,15 @@ fn editor_bfs(depth: usize, bad: &mut Bad) -> (u64, u64, u64, Vec<Vec<K>>) {
                 match r {
                     Ok(Ok((key, dg))) => {
                         digests.insert(dg);
-                        if seen.insert(key) {
-                            next.push(seq);
-                        }
+                        seen.insert(key);
+                        next.push(seq);
                     }
                     Ok(Err((k, w))) => note(bad, k, keys_line(&seq, 76, 28), w),
                     Err(p) => note(bad, panic_key(&p), keys_line(&seq, 76, 28), format!("panic at {}: {}", p.site(), p.msg)),
                 }
             }
         }
-        states += next.len() as u64;
+        states = seen.len() as u64 + 1;
         all_states.extend(next.iter().cloned());
         frontier = next;
     }
@@ -518,7 +520,7 @@ pub fn run() {
     let quick = ctx.quick();
     let mut bad = Bad::new();
     // ---- editor BFS ----
-    let depth = if quick { 4 } else { 6 };
+    let depth = if quick { 4 } else { 5 };
     let (states, transitions, digests, all_states) = editor_bfs(depth, &mut bad);
     // ---- rendering of every distinct editor state at many sizes ----
     let step = if quick { (all_states.len() / 400).max(1) } else { (all_states.len() / 6000).max(1) };
@@ -692,6 +694,19 @@ pub fn run() {
             k.extend([K::E(Key::Up), K::E(Key::Up), K::E(Key::Down), K::E(Key::Home), K::E(Key::Delete), K::E(Key::End), K::E(Key::Enter)]);
             seqs.push(k);
         }
+        // all triples over a small set of commands and control keys (state carried across three steps)
+        let items: Vec<Vec<K>> = vec![typed("FC = 5"), typed("load ok.asm"), typed("set J1"), typed("unset J1"), typed("set TEMP = 1.5"), typed("next 3"), vec![K::Ctrl('r')], vec![K::Ctrl('w')], typed("FC = 6")];
+        for a in &items {
+            for b in &items {
+                for c in &items {
+                    let mut k = a.clone();
+                    k.extend(b.iter().cloned());
+                    k.extend(c.iter().cloned());
+                    k.extend(typed("next 2"));
+                    seqs.push(k);
+                }
+            }
+        }
         let res = mc::par_map(&seqs, |keys| match mc::catch(|| replay(keys).map(|mut s| s.render(76, 28))) {
             Ok(Ok(_)) => None,
             Ok(Err((k, w))) => Some((k, keys_line(keys, 76, 28), w)),
@@ -758,9 +773,9 @@ pub fn run() {
     ctx.set("traces_validated_against_impl", transitions + cmd_runs + ctl_runs);
     ctx.set("evaluations", transitions + cmd_runs + ctl_runs + renders);
     ctx.set("distinct_nontrivial", states + cmd_accepted);
-    ctx.set("rule", "editor: BFS by replay over a 22-key alphabet (characters incl. multi-byte, Enter, Tab, BackTab, arrows, Home/End, Backspace/Delete), states deduplicated on (input, cursor, history, history index, completions, notification); every key goes through the real Tui::handle_event and is compared with REF-EDIT / REF-CMD and a twin Machine driven by library calls; every transition renders the real Interface into a Buffer; rendering: every chosen editor state x all widths 76..250 and heights 28..100, 8 session states x all sizes 1x1..250x100, long inputs around the widget width; commands: the sentence family and all short strings typed and submitted; control keys: all ordered pairs after 20 machine states");
+    ctx.set("rule", "editor: BFS by replay over a 22-key alphabet (characters incl. multi-byte, Enter, Tab, BackTab, arrows, Home/End, Backspace/Delete), complete key-sequence tree to the depth (no deduplication; distinct visible states are only counted); every key goes through the real Tui::handle_event and is compared with REF-EDIT / REF-CMD and a twin Machine driven by library calls; every transition renders the real Interface into a Buffer; rendering: every chosen editor state x all widths 76..250 and heights 28..100, 8 session states x all sizes 1x1..250x100, long inputs around the widget width; commands: the sentence family and all short strings typed and submitted; control keys: all ordered pairs after 20 machine states");
     ctx.set("exhaustive", true);
-    ctx.set("bounds", format!("editor depth {} ({} distinct states, {} key transitions, {} distinct screen digests); {} render calls; {} submitted command lines ({} executed as documented commands); {} control-key runs", depth, states, transitions, digests, renders, cmd_runs, cmd_accepted, ctl_runs));
+    ctx.set("bounds", format!("editor depth {} ({} distinct visible states, {} key sequences, {} distinct screen digests); {} render calls; {} submitted command lines ({} executed as documented commands); {} control-key runs", depth, states, transitions, digests, renders, cmd_runs, cmd_accepted, ctl_runs));
     ctx.set("render_calls", renders);
     ctx.set("command_lines", cmd_runs);
     ctx.set("distinct_outcomes", digests);
